@@ -11,7 +11,7 @@ Theorem bitreverse_order_invol {A} l (x : list A) : (l <= 64)%nat -> length x = 
   exists y, bitreverse_order x = Some y /\ bitreverse_order y = Some x.
 Proof.
   intros Hl Hx. exists (brev l x). split; [apply bitreverse_order_pow2; assumption|].
-  rewrite (bitreverse_order_pow2 l) by (try rewrite brev_length; assumption).
+  rewrite (bitreverse_order_pow2 l) by (try apply brev_length; assumption).
   rewrite brev_invol by exact Hx. reflexivity.
 Qed.
 Lemma bitreverse_order_nil {A} : bitreverse_order (@nil A) = Some [].
